@@ -331,73 +331,6 @@ end K
 
 namespace K
 
-/-! ### "favours the near ear" — the scalar core -/
-
-/-- With `X = w·n > 0` (emitter on the right), `Z = w·f`, `W = |w|² ≥ X² + Z²` and the emitter at
-    least two ear distances away, the cosine seen by the left ear is at most the one seen by the
-    right ear.  `A = cos(π/8) ≥ 1/2`, `B = sin(π/8) ≥ 0`. -/
-theorem favours_core (A B e X Z W : ℝ) (hAB : A ^ 2 + B ^ 2 = 1) (hA : 1 / 2 ≤ A) (he : 0 < e)
-    (hX : 0 < X) (hW : X ^ 2 + Z ^ 2 ≤ W) (hfar : 4 * e ^ 2 ≤ W) :
-    vol (-A * X - B * Z - A * e) (W + 2 * e * X + e ^ 2) ≤ vol (A * X - B * Z - A * e) (W - 2 * e * X + e ^ 2) := by
-  have hee : 0 < e * e := mul_pos he he
-  have hqR : 0 < W - 2 * e * X + e ^ 2 := by nlinarith [sq_nonneg (2 * e - X), sq_nonneg Z]
-  have hqL : 0 < W + 2 * e * X + e ^ 2 := by nlinarith [mul_pos he hX]
-  have hlt : W - 2 * e * X + e ^ 2 < W + 2 * e * X + e ^ 2 := by nlinarith [mul_pos he hX]
-  unfold vol
-  simp only [hqR, hqL, if_true]
-  set qR := W - 2 * e * X + e ^ 2 with hqRd
-  set qL := W + 2 * e * X + e ^ 2 with hqLd
-  set nR := A * X - B * Z - A * e with hnR
-  set nL := -A * X - B * Z - A * e with hnL
-  have hsR : 0 < Real.sqrt qR := Real.sqrt_pos.mpr hqR
-  have hsL : 0 < Real.sqrt qL := Real.sqrt_pos.mpr hqL
-  have hsRL : Real.sqrt qR ≤ Real.sqrt qL := Real.sqrt_le_sqrt hlt.le
-  have hA0 : 0 < A := by linarith
-  have hnLR : nL < nR := by rw [hnL, hnR]; nlinarith [mul_pos hA0 hX]
-  rcases le_or_gt 0 nR with hpos | hneg
-  · rcases le_or_gt nL 0 with hl | hl
-    · exact le_trans (div_nonpos_of_nonpos_of_nonneg hl hsL.le) (div_nonneg hpos hsR.le)
-    · calc nL / Real.sqrt qL ≤ nR / Real.sqrt qL := div_le_div_of_nonneg_right hnLR.le hsL.le
-        _ ≤ nR / Real.sqrt qR := div_le_div_of_nonneg_left hpos hsR hsRL
-  · -- both negative: compare squares
-    have hW0 : 0 ≤ W := by nlinarith [sq_nonneg X, sq_nonneg Z]
-    -- e (B Z + A X) ≤ A W
-    have hkey : e * (B * Z + A * X) ≤ A * W := by
-      rcases le_or_gt (B * Z + A * X) 0 with h0 | h0
-      · nlinarith [mul_nonneg hA0.le hW0, mul_nonpos_of_nonneg_of_nonpos he.le h0]
-      · have hcs : (B * Z + A * X) ^ 2 ≤ W := by nlinarith [sq_nonneg (A * Z - B * X)]
-        have h1 : (e * (B * Z + A * X)) ^ 2 ≤ (A * W) ^ 2 := by
-          have : (e * (B * Z + A * X)) ^ 2 = e ^ 2 * (B * Z + A * X) ^ 2 := by ring
-          rw [this]
-          have h2 : e ^ 2 * (B * Z + A * X) ^ 2 ≤ (W / 4) * W := by
-            apply mul_le_mul (by linarith) hcs (sq_nonneg _) (by linarith)
-          have hA2 : 1 / 4 ≤ A ^ 2 := by nlinarith
-          have h3 : (W / 4) * W ≤ (A * W) ^ 2 := by
-            nlinarith [mul_nonneg (mul_nonneg hW0 hW0) (sub_nonneg.mpr hA2)]
-          linarith
-        exact (abs_le_of_sq_le_sq' h1 (mul_nonneg hA0.le hW0)).2
-    set u := -nR with hu
-    have hupos : 0 < u := by rw [hu]; linarith
-    have heu : e * u ≤ A * qR := by rw [hu, hnR, hqRd]; nlinarith
-    have hbr : 0 ≤ A * u * qR + A ^ 2 * X * qR - e * u ^ 2 := by
-      nlinarith [mul_le_mul_of_nonneg_right heu hupos.le, mul_nonneg (mul_nonneg (sq_nonneg A) hX.le) hqR.le]
-    have hpoly : nR ^ 2 * qL ≤ nL ^ 2 * qR := by
-      have : nL ^ 2 * qR - nR ^ 2 * qL = 4 * X * (A * u * qR + A ^ 2 * X * qR - e * u ^ 2) := by
-        rw [hu, hnL, hnR, hqLd, hqRd]; ring
-      nlinarith [mul_nonneg hX.le hbr]
-    -- (−nR)·√qL ≤ (−nL)·√qR
-    have hm : (-nR) * Real.sqrt qL ≤ (-nL) * Real.sqrt qR := by
-      have hl : 0 ≤ (-nL) * Real.sqrt qR := mul_nonneg (by linarith) hsR.le
-      have hsq : ((-nR) * Real.sqrt qL) ^ 2 ≤ ((-nL) * Real.sqrt qR) ^ 2 := by
-        have e1 : ((-nR) * Real.sqrt qL) ^ 2 = nR ^ 2 * qL := by
-          rw [mul_pow, Real.sq_sqrt hqL.le]; ring
-        have e2 : ((-nL) * Real.sqrt qR) ^ 2 = nL ^ 2 * qR := by
-          rw [mul_pow, Real.sq_sqrt hqR.le]; ring
-        rw [e1, e2]; exact hpoly
-      exact (abs_le_of_sq_le_sq' hsq hl).2
-    rw [div_le_div_iff₀ hsL hsR]
-    linarith
-
 /-! ### the interpolated orientation is a unit quaternion -/
 
 theorem Quat.lerp_normSq (a e : Quat ℝ) (t : ℝ) (ha : Quat.normSq a ≠ 0) (he : Quat.normSq e ≠ 0)
@@ -523,5 +456,101 @@ theorem cB_ge_quarter : 1 / 4 ≤ cB := by
     apply Real.le_sqrt_of_sq_le; nlinarith
   linarith
 theorem cA_le_one : cA ≤ 1 := Real.cos_le_one _
+
+end K
+
+namespace K
+
+/-- `cos²(π/8) ≥ sin²(π/8)` -/
+theorem cB_sq_le_cA_sq : cB ^ 2 ≤ cA ^ 2 := by
+  have h4 : Real.cos (Real.pi / 4) ≤ cA := by
+    unfold cA
+    apply Real.cos_le_cos_of_nonneg_of_le_pi (by positivity) (by linarith [Real.pi_pos]) (by linarith [Real.pi_pos])
+  rw [Real.cos_pi_div_four] at h4
+  have hs : Real.sqrt 2 * Real.sqrt 2 = 2 := Real.mul_self_sqrt (by norm_num)
+  have hpos : 0 ≤ Real.sqrt 2 / 2 := by positivity
+  have : 1 / 2 ≤ cA ^ 2 := by nlinarith
+  have := cA_sq_add_cB_sq
+  linarith
+
+/-- the scalar core of "favours the near ear" at full strength: the emitter only has to be outside
+    the head (`|w| ≥ e`, the ear distance). -/
+theorem favours_core_full (A B e X Z W : ℝ) (hAB : A ^ 2 + B ^ 2 = 1) (hA0 : 0 < A) (hB : 0 ≤ B)
+    (hBA : B ^ 2 ≤ A ^ 2) (he : 0 < e) (hX : 0 < X) (hW : X ^ 2 + Z ^ 2 ≤ W) (hfar : e ^ 2 ≤ W) :
+    vol (-A * X - B * Z - A * e) (W + 2 * e * X + e ^ 2) ≤ vol (A * X - B * Z - A * e) (W - 2 * e * X + e ^ 2) := by
+  have hqL : 0 < W + 2 * e * X + e ^ 2 := by nlinarith [mul_pos he hX, sq_nonneg X, sq_nonneg Z]
+  have hqR0 : W - 2 * e * X + e ^ 2 = (W - X ^ 2 - Z ^ 2) + (X - e) ^ 2 + Z ^ 2 := by ring
+  by_cases hqR : 0 < W - 2 * e * X + e ^ 2
+  · have hlt : W - 2 * e * X + e ^ 2 < W + 2 * e * X + e ^ 2 := by nlinarith [mul_pos he hX]
+    unfold vol
+    simp only [hqR, hqL, if_true]
+    set qR := W - 2 * e * X + e ^ 2 with hqRd
+    set qL := W + 2 * e * X + e ^ 2 with hqLd
+    set nR := A * X - B * Z - A * e with hnR
+    set nL := -A * X - B * Z - A * e with hnL
+    have hsR : 0 < Real.sqrt qR := Real.sqrt_pos.mpr hqR
+    have hsL : 0 < Real.sqrt qL := Real.sqrt_pos.mpr hqL
+    have hsRL : Real.sqrt qR ≤ Real.sqrt qL := Real.sqrt_le_sqrt hlt.le
+    have hnLR : nL < nR := by rw [hnL, hnR]; nlinarith [mul_pos hA0 hX]
+    rcases le_or_gt 0 nR with hpos | hneg
+    · rcases le_or_gt nL 0 with hl | hl
+      · exact le_trans (div_nonpos_of_nonpos_of_nonneg hl hsL.le) (div_nonneg hpos hsR.le)
+      · calc nL / Real.sqrt qL ≤ nR / Real.sqrt qL := div_le_div_of_nonneg_right hnLR.le hsL.le
+          _ ≤ nR / Real.sqrt qR := div_le_div_of_nonneg_left hpos hsR hsRL
+    · set u := -nR with hu
+      have hupos : 0 < u := by rw [hu]; linarith
+      have hY2 : 0 ≤ W - X ^ 2 - Z ^ 2 := by linarith
+      have hbr : 0 ≤ A * u * qR + A ^ 2 * X * qR - e * u ^ 2 := by
+        rcases le_or_gt 0 Z with hZ | hZ
+        · have hid : A * u * qR + A ^ 2 * X * qR - e * u ^ 2
+              = A * B * Z * (W - e ^ 2) + A ^ 2 * e * (W - X ^ 2 - Z ^ 2) + (A ^ 2 - B ^ 2) * e * Z ^ 2 := by
+            rw [hu, hnR, hqRd]; ring
+          rw [hid]
+          have t1 : 0 ≤ A * B * Z * (W - e ^ 2) :=
+            mul_nonneg (mul_nonneg (mul_nonneg hA0.le hB) hZ) (by linarith)
+          have t2 : 0 ≤ A ^ 2 * e * (W - X ^ 2 - Z ^ 2) := mul_nonneg (mul_nonneg (sq_nonneg A) he.le) hY2
+          have t3 : 0 ≤ (A ^ 2 - B ^ 2) * e * Z ^ 2 :=
+            mul_nonneg (mul_nonneg (by linarith) he.le) (sq_nonneg Z)
+          linarith
+        · have hid : A * u * qR + A ^ 2 * X * qR - e * u ^ 2
+              = (W - X ^ 2 - Z ^ 2) * (A * (A * X + u))
+                + (-Z) * (u * B * (e + X) + (-Z) * X + A * (-Z) * u) := by
+            rw [hu, hnR, hqRd]; linear_combination (Z ^ 2 * X) * hAB
+          rw [hid]
+          have hz : 0 < -Z := by linarith
+          have t1 : 0 ≤ (W - X ^ 2 - Z ^ 2) * (A * (A * X + u)) :=
+            mul_nonneg hY2 (mul_nonneg hA0.le (by nlinarith [mul_pos hA0 hX]))
+          have t2 : 0 ≤ (-Z) * (u * B * (e + X) + (-Z) * X + A * (-Z) * u) := by
+            apply mul_nonneg hz.le
+            have a1 : 0 ≤ u * B * (e + X) := mul_nonneg (mul_nonneg hupos.le hB) (by linarith)
+            have a2 : 0 ≤ (-Z) * X := mul_nonneg hz.le hX.le
+            have a3 : 0 ≤ A * (-Z) * u := mul_nonneg (mul_nonneg hA0.le hz.le) hupos.le
+            linarith
+          linarith
+      have hpoly : nR ^ 2 * qL ≤ nL ^ 2 * qR := by
+        have : nL ^ 2 * qR - nR ^ 2 * qL = 4 * X * (A * u * qR + A ^ 2 * X * qR - e * u ^ 2) := by
+          rw [hu, hnL, hnR, hqLd, hqRd]; ring
+        nlinarith [mul_nonneg hX.le hbr]
+      have hm : (-nR) * Real.sqrt qL ≤ (-nL) * Real.sqrt qR := by
+        have hl : 0 ≤ (-nL) * Real.sqrt qR := mul_nonneg (by linarith) hsR.le
+        have hsq : ((-nR) * Real.sqrt qL) ^ 2 ≤ ((-nL) * Real.sqrt qR) ^ 2 := by
+          have e1 : ((-nR) * Real.sqrt qL) ^ 2 = nR ^ 2 * qL := by
+            rw [mul_pow, Real.sq_sqrt hqL.le]; ring
+          have e2 : ((-nL) * Real.sqrt qR) ^ 2 = nL ^ 2 * qR := by
+            rw [mul_pow, Real.sq_sqrt hqR.le]; ring
+          rw [e1, e2]; exact hpoly
+        exact (abs_le_of_sq_le_sq' hsq hl).2
+      rw [div_le_div_iff₀ hsL hsR]
+      linarith
+  · -- the emitter sits exactly on the right ear: X = e, Z = 0
+    have hsum : (X - e) ^ 2 + Z ^ 2 ≤ 0 := by nlinarith
+    have hZ2 : Z ^ 2 ≤ 0 := by nlinarith [sq_nonneg (X - e)]
+    have hXe2 : (X - e) ^ 2 ≤ 0 := by nlinarith [sq_nonneg Z]
+    have hZ : Z = 0 := pow_eq_zero_iff (n := 2) (by norm_num) |>.mp (le_antisymm hZ2 (sq_nonneg Z))
+    have hXe : X - e = 0 := pow_eq_zero_iff (n := 2) (by norm_num) |>.mp (le_antisymm hXe2 (sq_nonneg _))
+    unfold vol
+    simp only [hqR, hqL, if_true, if_false]
+    apply div_nonpos_of_nonpos_of_nonneg _ (Real.sqrt_nonneg _)
+    rw [hZ]; nlinarith [mul_pos hA0 hX, mul_pos hA0 he]
 
 end K
